@@ -22,11 +22,22 @@ import (
 	"sync"
 	"syscall"
 	"time"
+
+	"golang.org/x/net/http2"
+	"golang.org/x/net/http2/h2c"
 )
 
 type backendScript struct {
 	raw        []byte // bytes to answer with (nil: default 200 "ok")
 	closeAfter bool
+	// structured form, played by the HTTP/2 (h2c) backend
+	interim    []http.Header // 103 responses to send first
+	status     int
+	header     http.Header
+	pieces     [][]byte // body pieces, flushed one by one
+	announceCL bool
+	declared   http.Header // trailers announced in "Trailer" before the body
+	undeclared http.Header // trailers sent with the http.TrailerPrefix convention
 }
 
 type seenRequest struct {
@@ -45,6 +56,7 @@ type rig struct {
 	proxyAddr string
 	mu        sync.Mutex
 	scripts   map[string]*backendScript // by X-Case
+	h2        bool
 	seen      map[string]*seenRequest
 }
 
@@ -63,8 +75,8 @@ func buildBinaries(dir string) error {
 	return nil
 }
 
-func startRig(bindir string) (*rig, error) {
-	r := &rig{scripts: map[string]*backendScript{}, seen: map[string]*seenRequest{}}
+func startRig(bindir string, h2 bool) (*rig, error) {
+	r := &rig{scripts: map[string]*backendScript{}, seen: map[string]*seenRequest{}, h2: h2}
 	var err error
 	r.dir, err = os.MkdirTemp("", "bbox-home-")
 	if err != nil {
@@ -84,7 +96,12 @@ func startRig(bindir string) (*rig, error) {
 	if err != nil {
 		return nil, err
 	}
-	go r.serveBackend()
+	if h2 {
+		srv := &http.Server{Handler: h2c.NewHandler(http.HandlerFunc(r.h2Handler), &http2.Server{})}
+		go srv.Serve(r.backend)
+	} else {
+		go r.serveBackend()
+	}
 	r.proxyCmd = exec.Command(filepath.Join(bindir, "proxy"), "--port=0")
 	r.proxyCmd.SysProcAttr = &syscall.SysProcAttr{Pdeathsig: syscall.SIGKILL}
 	pe, _ := r.proxyCmd.StderrPipe()
@@ -109,7 +126,11 @@ func startRig(bindir string) (*rig, error) {
 	}
 	go io.Copy(io.Discard, pe)
 	r.proxyAddr = "127.0.0.1:" + port
-	r.agentCmd = exec.Command(filepath.Join(bindir, "agent"), "--backend=b", "--proxy=http://"+r.proxyAddr+"/", "--host="+r.backend.Addr().String())
+	args := []string{"--backend=b", "--proxy=http://" + r.proxyAddr + "/", "--host=" + r.backend.Addr().String()}
+	if h2 {
+		args = append(args, "--force-http2")
+	}
+	r.agentCmd = exec.Command(filepath.Join(bindir, "agent"), args...)
 	r.agentCmd.Env = []string{"PATH=", "HOME=" + r.dir, "GCE_METADATA_HOST=" + strings.TrimPrefix(r.md.URL, "http://")}
 	r.agentCmd.Stderr = io.Discard
 	r.agentCmd.SysProcAttr = &syscall.SysProcAttr{Pdeathsig: syscall.SIGKILL}
@@ -181,6 +202,65 @@ func (r *rig) serveBackend() {
 				}
 			}
 		}(c)
+	}
+}
+
+// h2Handler is the HTTP/2 cleartext backend: it records the request and plays the structured script.
+func (r *rig) h2Handler(w http.ResponseWriter, req *http.Request) {
+	body, berr := io.ReadAll(req.Body)
+	id := req.Header.Get("X-Case")
+	s := &seenRequest{method: req.Method, target: req.RequestURI, host: req.Host, header: req.Header, body: body}
+	if berr != nil {
+		s.err = berr.Error()
+	}
+	r.mu.Lock()
+	r.seen[id] = s
+	sc := r.scripts[id]
+	r.mu.Unlock()
+	if sc == nil || sc.status == 0 {
+		w.Header().Set("X-Default", "1")
+		w.Write([]byte("ok"))
+		return
+	}
+	for _, ih := range sc.interim {
+		for k, v := range ih {
+			w.Header()[k] = v
+		}
+		w.WriteHeader(103)
+		for k := range ih {
+			w.Header().Del(k)
+		}
+	}
+	for k, v := range sc.header {
+		w.Header()[k] = v
+	}
+	var names []string
+	for k := range sc.declared {
+		names = append(names, k)
+	}
+	if len(names) > 0 {
+		w.Header().Set("Trailer", strings.Join(names, ", "))
+	}
+	total := 0
+	for _, p := range sc.pieces {
+		total += len(p)
+	}
+	if sc.announceCL {
+		w.Header().Set("Content-Length", fmt.Sprint(total))
+	}
+	w.WriteHeader(sc.status)
+	fl, _ := w.(http.Flusher)
+	for _, p := range sc.pieces {
+		w.Write(p)
+		if fl != nil {
+			fl.Flush()
+		}
+	}
+	for k, v := range sc.declared {
+		w.Header()[k] = v
+	}
+	for k, v := range sc.undeclared {
+		w.Header()[http.TrailerPrefix+k] = v
 	}
 }
 
